@@ -139,6 +139,14 @@ theorem swap_in_wire (sender : String) (routes : List SwapHop) (c : Coin) (lim :
         Proto.fString 1 sender ++ (routes.flatMap fun r => Proto.fMsg 2 (Proto.fUint 1 r.poolId ++ Proto.fString 2 r.denom))
           ++ Proto.fMsg 3 (Proto.encCoin c) ++ Proto.fString 4 (toString lim)) := rfl
 
+/-- the exact-out message on the wire (sender 1, routes 2 with the *input* denom of each hop,
+token_in_max_amount 3, token_out 4) -/
+theorem swap_out_wire (sender : String) (routes : List SwapHop) (c : Coin) (lim : Nat) :
+    Proto.encodeMsg .osmosis (.swapOut sender routes c lim) =
+      some ("/osmosis.poolmanager.v1beta1.MsgSwapExactAmountOut",
+        Proto.fString 1 sender ++ (routes.flatMap fun r => Proto.fMsg 2 (Proto.fUint 1 r.poolId ++ Proto.fString 2 r.denom))
+          ++ Proto.fString 3 (toString lim) ++ Proto.fMsg 4 (Proto.encCoin c)) := rfl
+
 /-- non-vacuity: an allow-list with a two-hop route accepts it and rejects its one-hop prefix -/
 example :
     let r1 : SwapRoute := ⟨1, "a", "b"⟩
